@@ -17,7 +17,16 @@ from ..faults import Faults, make_callback
 from ..harness import Check
 
 PATHS = {"plain": "target", "dotted": "inner.value", "item": 'data["k"]', "mixed": 'inner.data["k"]'}
+# the key of an item step, as the dictionary sees it and as it is spelled in the path (the path grammar admits both quote
+# characters and backslash escapes; every access through the alias must reach the entry the spelled literal denotes)
+KEYS = {"k": ("k", '"k"'), "esc_quote": ('q"x', r'"q\"x"'), "esc_tab": ("a\tb", r'"a\tb"'), "single": ("sq", "'sq'"),
+        "esc_bs": ("b\\s", r'"b\\s"'), "esc_uni": ("\u00e9", r'"\u00e9"')}
+CUR = {"key": "k"}  # key of the run in progress (one run at a time per process)
 _NONE = object()
+
+
+def path_of(cfg):
+    return PATHS[cfg["path"]].replace('"k"', KEYS[cfg.get("key", "k")][1])
 
 
 class Inner:
@@ -38,7 +47,7 @@ def build_host(cfg, faults):
     if cfg["fallback"]:
         kw["fallback"] = [0]
     A = DeprecatedAlias if cfg["deprecated"] else Alias
-    al = A(PATHS[cfg["path"]], **kw)
+    al = A(path_of(cfg), **kw)
     ns = {"al": al, "__module__": "specsim.generated"}
     if cfg["host"] == "spec":
         ns["__annotations__"] = {"al": object if (cfg["fallback"] or True) else int, "target": int, "inner": Inner, "data": dict}
@@ -111,8 +120,8 @@ def target_get(o, path):
     if path == "dotted":
         return o.inner.__dict__.get("value", _NONE)
     if path == "item":
-        return o.data.get("k", _NONE)
-    return o.inner.data.get("k", _NONE)
+        return o.data.get(CUR["key"], _NONE)
+    return o.inner.data.get(CUR["key"], _NONE)
 
 
 def target_set(o, path, v):
@@ -121,9 +130,9 @@ def target_set(o, path, v):
     elif path == "dotted":
         o.inner.value = v
     elif path == "item":
-        o.data["k"] = v
+        o.data[CUR["key"]] = v
     else:
-        o.inner.data["k"] = v
+        o.inner.data[CUR["key"]] = v
 
 
 def target_del(o, path):
@@ -132,9 +141,9 @@ def target_del(o, path):
     elif path == "dotted":
         del o.inner.value
     elif path == "item":
-        del o.data["k"]
+        del o.data[CUR["key"]]
     else:
-        del o.inner.data["k"]
+        del o.inner.data[CUR["key"]]
 
 
 class C18(Check):
@@ -173,7 +182,10 @@ class C18(Check):
             cfg = {"passthrough": src.chance(0.5), "transform": src.chance(0.5), "fallback": src.chance(0.5),
                    "path": src.choice(list(PATHS)), "deprecated": src.chance(0.3), "host": src.choice(["plain", "spec"]),
                    "eager": src.chance(0.6)}
+            if cfg["path"] in ("item", "mixed") and src.chance(0.6):
+                cfg["key"] = src.choice(sorted(KEYS))
             ops_in = None
+        CUR["key"] = KEYS[cfg.get("key", "k")][0]
         ctx.case.update({"cfg": cfg, "ops": []})
         faults = Faults()
         faults.begin(None)
